@@ -25,7 +25,7 @@ ASSUMPTIONS = [
     "shooting growth bounded by exp(13.8) by construction",
 ]
 TOLERANCES = {"all": "(1e-12 + 4096*eps*G) * max|field|"}
-BUDGET = {"quick": dict(examples=400, shards=1), "thorough": dict(examples=2500, shards=16)}
+BUDGET = {"quick": dict(examples=1000, shards=1), "thorough": dict(examples=10000, shards=16)}
 
 
 def warmup():
